@@ -634,6 +634,11 @@ def judge(case, nscenes=8):
         except RejectionException:
             out.cls("rejected")
             continue
+        except (ZeroDivisionError, OverflowError) as e:
+            # an arithmetic error on the sampled operands (e.g. -4 / len(s[i:]) with an empty
+            # slice): plain Python raises the same on the same samples, so nothing to compare
+            out.cls("unjudged:python-also-raises:" + type(e).__name__)
+            continue
         except Exception as e:
             culprit = blame(case, sample=True)
             out.fail(f"{culprit}|sample:" + core.exc_signature(e), error=repr(e)[:300], source=src)
